@@ -1,8 +1,8 @@
 SPECIFICATION ISpec
 CONSTANTS
-  Repaired = TRUE
-  MaxLen = 4
+  Repaired = FALSE
+  MaxLen = 3
   Vals = {1, 2}
-INVARIANTS CursorInv NoIterPanic NoValuePanic
+INVARIANTS NoIterPanic NoValuePanic
 VIEW IView
 CHECK_DEADLOCK FALSE
